@@ -3,6 +3,7 @@ import PlushProofs.Lib.LexerLines
 import PlushProofs.Lib.LexerShift
 import PlushProofs.Lib.ParserErrLines
 import PlushProofs.Props.C05
+import PlushProofs.Lib.EvalErrLines
 /-!
   C15 — every template error names the line of the failing tag, invariant under shifting.
   Line tracking lives in the lexer (`readChar` bumps the counter on every LF it consumes; a token is
@@ -89,5 +90,21 @@ theorem C15_shift_scanner (l l' : LX) (hs : LX.Sim l l') :
 theorem C15_syntax_errors_name_a_line (src : Bytes) (prog : Program) (errs : Array PErr)
     (h : parseBytes src = .ok (prog, errs)) : ∀ e ∈ errs.toList, e.line.isSome = true :=
   parse_errors_have_lines src prog errs h
+
+/-! ### Every error a render returns names a line (proof in `PlushProofs/Lib/EvalErrLines.lean`) -/
+
+/-- EVERY ERROR THAT LEAVES `compile` CARRIES A LINE, for every statement list, every data, every fuel: whatever
+    the statement's evaluation did (all 27 evaluator functions, helpers, partials), `compile` stamps the error
+    before it leaves — with the line of the innermost statement still being evaluated, else of the top-level
+    statement. (Strengthens `C15_runtime_errors_have_line`, which was about one statement form.) -/
+theorem C15_compile_errors_name_a_line (fuel : Nat) (stmts : List Stmt) (out : Bytes) (s s' : ES) (e : Err)
+    (h : compileStmts fuel stmts out s = (.err e, s')) : e.line.isSome = true :=
+  compileStmts_errors_lined fuel stmts out s e s' h
+
+/-- END TO END: every error returned by a render of ANY source text in ANY context names a line — a syntax
+    error by `C15_syntax_errors_name_a_line`, a runtime error by `C15_compile_errors_name_a_line`. -/
+theorem C15_render_errors_name_a_line (fuel : Nat) (src : Bytes) (ctx : Nat) (s s' : ES) (e : Err)
+    (h : renderIn fuel src ctx s = (.err e, s')) : e.line.isSome = true :=
+  renderIn_errors_lined fuel src ctx s e s' h
 
 end Plush
